@@ -418,6 +418,11 @@ impl Writer for ProtobufWriter<'_> {
 
     #[inline]
     fn write_null<C: null::Constraint>(&mut self, _value: &Null) -> Result<(), Self::Error> {
+        // NULL is declared as an (empty) bytes field and occupies its field number
+        let tag = self.state.tag_counter + 1;
+        self.buffer.write_tagged_bytes(tag, &[])?;
+        self.state.tag_counter = tag;
+        self.state.format = Some(Format::LengthDelimited);
         Ok(())
     }
 }
